@@ -56,7 +56,7 @@ CHECKS["C16"] = ("bfs + devdfs (worker subprocesses)", "model_checking",
 CHECKS["C17"] = ("devdfs (worker subprocesses)", "fault_enumeration",
     "deviation-bounded enumeration of environment events (wake, SIGWINCH, SIGTERM, input, hang-up) at every system-call boundary and of every crash point, real UnixTerminal on a pty",
     "Same explorer as C16(b). In addition a waker call, SIGWINCH, SIGTERM, the next input bytes or a hang-up may land before ANY select/write/read or between the signal, waker and input "
-    "phases of the poll loop (hook points), each costing one deviation; polls use timeouts 0, 5 ms (virtual clock) and infinite; bursts of 127 / 128 / 256 / 1024 wake requests before one poll; a termination and a window-size signal pending together in both orders; three wake requests at every triple of points; three keys typed before position() with another one arriving inside it; two terminal objects one after the other on one pty device number (the first hung up before its release, the second with other initial line settings; real system calls, in a child process); arrival order under the real kernel (256 / 40 one-byte frames pending, a key typed, one poll, SIGWINCH: key before resize); a terminal that answers position() late while a wake is pending; release with an output copy (duplicate_output) that cannot be written; eleven placements of the tty descriptor relative to the descriptors the terminal allocates itself (as given, moved to 40 with 0..6 or all lower numbers free, moved to 200 and 700; real system calls: typed keys must arrive, output and the closing sequence must reach the peer); the terminal is released after every prefix of every session. "
+    "phases of the poll loop (hook points), each costing one deviation; polls use timeouts 0, 5 ms (virtual clock) and infinite; bursts of 127 / 128 / 256 / 1024 wake requests before one poll; a termination and a window-size signal pending together in both orders; three wake requests at every triple of points; three keys typed before position() with another one arriving inside it; two terminal objects one after the other on one pty device number (the first hung up before its release, the second with other initial line settings; real system calls, in a child process); arrival order under the real kernel (256 / 40 one-byte frames pending, a key typed, one poll, SIGWINCH: key before resize); a terminal that answers position() late while a wake is pending; release with an output copy (duplicate_output) that cannot be written; a window that grows with every window-size signal (the last Resize must carry its size); eleven placements of the tty descriptor relative to the descriptors the terminal allocates itself (as given, moved to 40 with 0..6 or all lower numbers free, moved to 200 and 700; real system calls: typed keys must arrive, output and the closing sequence must reach the peer); the terminal is released after every prefix of every session. "
     "Oracle: a wake is followed by a Wake event from the current or a later poll and never blocks a poll for ever; SIGWINCH yields a Resize; SIGTERM yields the quit error; input bytes come out "
     "as the events a reference decoder gives, in order; no quit without cause; after release tcgetattr equals the saved settings and, if the tty kept accepting writes, the closing sequence "
     "(cursor visible, mouse modes off) was delivered. Every failing schedule is replayed twice and must fail identically.",
